@@ -265,6 +265,54 @@ def run_val(ident, t, out):
     k = t[0]
     if k == "nadv":
         r = res(lambda: canon.i2s(multistage_mod.n_advance(int(t[1]), int(t[2]), trajectory=TRAJ[t[3]])))
+    elif k == "act":
+        def f():
+            import sys as _sys
+            parts, cur = [], []
+            for x in t[1:]:
+                if x == "/":
+                    parts.append(cur)
+                    cur = []
+                else:
+                    cur.append(x)
+            parts.append(cur)
+            ST = {"RAM": StorageType.RAM, "DISK": StorageType.DISK, "WORK": StorageType.WORK, "NONE": StorageType.NONE}
+            def mk(p):
+                if p[0] == "F":
+                    return cs.Forward(int(p[1]), int(p[2]), p[3] == "T", p[4] == "T", ST[p[5]])
+                if p[0] == "R":
+                    return cs.Reverse(int(p[1]), int(p[2]), p[3] == "T")
+                if p[0] in ("C", "M"):
+                    return (cs.Copy if p[0] == "C" else cs.Move)(int(p[1]), ST[p[2]], ST[p[3]])
+                return cs.EndForward() if p[0] == "EF" else cs.EndReverse()
+            a, b, kk, txt = mk(parts[0]), mk(parts[1]), int(parts[2][0]), parts[3][0].replace("_", " ")
+            ns = {"Forward": cs.Forward, "Reverse": cs.Reverse, "Copy": cs.Copy, "Move": cs.Move, "EndForward": cs.EndForward,
+                  "EndReverse": cs.EndReverse, "StorageType": StorageType, "sys": _sys}
+            def g(h):
+                try:
+                    return h()
+                except Exception as e:  # noqa
+                    return "EXC:" + type(e).__name__
+            span = (a.n1 - a.n0) if type(a).__name__ in ("Forward", "Reverse") else None
+            eq, ne = a == b, a != b
+            def rt():
+                c = eval(repr(a), ns)
+                return canon.b2s(type(c) is type(a) and c == a and not (c != a))
+            def rd():
+                try:
+                    c = eval(txt, ns)
+                except Exception:  # noqa
+                    return "none"
+                return canon.act2s(c)
+            return ";".join([
+                "repr=" + repr(a),
+                "eq=" + (canon.b2s(eq) if eq is not ne else "?eq/ne:%r/%r" % (eq, ne)),
+                "len=" + g(lambda: canon.i2s(len(a))),
+                "iter=" + ("skip" if span is not None and span >= 65 else g(lambda: ",".join([canon.i2s(x) for x in a]))),
+                "mem=" + g(lambda: canon.b2s(kk in a)),
+                "rt=" + g(rt),
+                "read=" + rd()])
+        r = res(f)
     elif k == "oes":
         r = res(lambda: canon.i2s(multistage_mod.optimal_extra_steps(int(t[1]), int(t[2]))))
     elif k == "osb":
